@@ -118,3 +118,8 @@ package xsurveyor
 //@ func (*socket).SetOption
 //@   ensures (name == protocol.OptionReadQLen) && isnil(result) ==> evcount("closed") == 1
 //@   ensures !isnil(result) ==> evcount("closed") == 0
+// ---- generated Info contracts (tools/gen_info_contracts.py) ----
+//@ func (*socket).Info
+//@   ensures result.Self == 98 && result.Peer == 99 && result.SelfName == "surveyor" && result.PeerName == "respondent"
+//@
+// ---- end generated Info contracts ----
